@@ -21,6 +21,9 @@ FIRST = {
     "C03-get-hash-flag-before-value": "exit 0 (the R/G stubs covered load/store only; the change publishes the flag with swap) -> swap / fetch_or / compare_exchange on the flag stubbed with the same guarantee",
     "C03-cow-eq-pointer-fast-path": "exit 0 under C03's and C14's checks (no two values sharing a start address were compared) -> C14 harness c14_str_alias_eq; reported by the C14 check (the change is in cow.rs)",
     "C14-clone-empty-owned-aliases": "exit 0 in the quick tier (the empty-but-allocated owned Vec was a thorough-tier case) -> quick harness c14_slice_owned_empty",
+    "C20-describe-dropped-when-busy": "exit 0 (every harness had one emission at a time) -> c20_weak_live_busy with parked in-flight references",
+    "C13-router-raw-ancestor": "exit 0 (Kani could not stub get_ancestor and ran the real trie in two trivial states) -> glue.verus.rs contract on Router::route with the documented contracts of get_ancestor / get_raw_ancestor",
+    "C13-filter-case-insensitive-dfa-only": "exit 0 (how FilterLayer::layer configures the automaton was an assumption) -> glue.verus.rs contract on FilterLayer::layer over a settings-recording builder stub",
     "C17-new-span-merges-current-not-parent": "exit 2 (Context stub lacked lookup_current) -> stub widened",
     "C17-filter-sees-empty-value": "exit 2 (closure annotation keyed to parameter names) -> annotation by position",
 }
